@@ -470,6 +470,7 @@ bool TypeChecker::typesAreCompatible(
                                 treatVoidAsAny,
                                 ignoreQualifier);
                 case TypeKind::Tag:
+                    break;
                 case TypeKind::Void:
                     return treatVoidAsAny;
                 case TypeKind::Qualified:
